@@ -79,7 +79,8 @@ impl Executor for BashScriptExecutor {
         testcases: &[&TestCase],
         context: &ExecutionContext,
     ) -> Result<Vec<Output>> {
-        let testcase = compile_testcase(testcases, context)?;
+        let salt = random_string(SUFFIX_RANDOM_SIZE);
+        let testcase = compile_testcase(testcases, context, &salt)?;
         let runner = SubprocessRunner(self.0.to_owned());
         let output = runner
             .run("script", &testcase, context)
@@ -94,8 +95,8 @@ impl Executor for BashScriptExecutor {
                     ExecutionTimeout::Total,
                     vec![Output {
                         exit_code: output.exit_code,
-                        stderr: remove_dividers_from_output(&output.stderr),
-                        stdout: remove_dividers_from_output(&output.stdout),
+                        stderr: remove_dividers_from_output(&output.stderr, &salt),
+                        stdout: remove_dividers_from_output(&output.stdout, &salt),
                     }],
                 ));
             }
@@ -112,6 +113,7 @@ impl Executor for BashScriptExecutor {
         let mut outputs = vec![];
         iterate_divided_output(
             "STDOUT",
+            &salt,
             (&output.stdout).into(),
             |_index: usize, out: &[u8], exit_code: i32| {
                 outputs.push(Output {
@@ -146,6 +148,7 @@ impl Executor for BashScriptExecutor {
         if testcase.config.output_stream != Some(OutputStreamControl::Combined) {
             iterate_divided_output(
                 "STDERR",
+                &salt,
                 (&output.stderr).into(),
                 |index: usize, out: &[u8], _exit_code: i32| {
                     if index >= outputs.len() {
@@ -171,7 +174,11 @@ impl Executor for BashScriptExecutor {
 /// Reduce a list of [`TestCase`] into a single one that has as it's shell
 /// expression a compiled bash script that executes all expressions and that
 /// uses a shared configuration
-fn compile_testcase(testcases: &[&TestCase], context: &ExecutionContext) -> Result<TestCase> {
+fn compile_testcase(
+    testcases: &[&TestCase],
+    context: &ExecutionContext,
+    salt: &str,
+) -> Result<TestCase> {
     let mut config = TestCaseConfig::empty();
 
     // iterate all test cases and make sure that they have a consistent configuration
@@ -215,7 +222,7 @@ fn compile_testcase(testcases: &[&TestCase], context: &ExecutionContext) -> Resu
     }
 
     // create a bash script that executes all testcases
-    let script = compile_script(testcases, &config)?;
+    let script = compile_script(testcases, &config, salt)?;
 
     // the environment variables are already exported in the compiled script
     config.environment.clear();
@@ -228,12 +235,14 @@ fn compile_testcase(testcases: &[&TestCase], context: &ExecutionContext) -> Resu
     })
 }
 
-/// Returns output stream that does not contain any line that starts with a divider prefix
-fn remove_dividers_from_output(output: &OutputStream) -> OutputStream {
+/// Returns output stream that does not contain any line that starts with a divider
+/// of the execution that is identified by the given salt
+fn remove_dividers_from_output(output: &OutputStream, salt: &str) -> OutputStream {
     let text: &[u8] = &output.to_bytes();
+    let divider_start = divider_start(salt);
     let mut updated = vec![];
     for line in text.split_at_newline() {
-        if line.starts_with(DIVIDER_PREFIX_BYTES) {
+        if line.starts_with(&divider_start) {
             continue;
         }
         updated.push(line);
@@ -242,11 +251,10 @@ fn remove_dividers_from_output(output: &OutputStream) -> OutputStream {
 }
 
 /// Compiles all shell expressions of a list of [`TestCase`]s into a single bash script
-fn compile_script(testcases: &[&TestCase], config: &TestCaseConfig) -> Result<String> {
+fn compile_script(testcases: &[&TestCase], config: &TestCaseConfig, salt: &str) -> Result<String> {
     use std::borrow::Cow;
 
     let mut expressions = vec![];
-    let salt = random_string(SUFFIX_RANDOM_SIZE);
     for (index, testcase) in testcases.iter().enumerate() {
         if testcase.config.timeout.is_some() {
             return Err(ExecutionError::failed(
@@ -281,7 +289,7 @@ fn compile_script(testcases: &[&TestCase], config: &TestCaseConfig) -> Result<St
         expressions.push(testcase.shell_expression.to_string());
 
         // add footer that divides from next execution and captures exit code
-        let footer = generate_divider(&salt, index);
+        let footer = generate_divider(salt, index);
         expressions.push("".to_string());
         expressions.push(format!(r#"echo "{}""#, &footer));
         if config.output_stream != Some(OutputStreamControl::Combined) {
@@ -292,15 +300,38 @@ fn compile_script(testcases: &[&TestCase], config: &TestCaseConfig) -> Result<St
     Ok(expressions.join("\n"))
 }
 
-fn iterate_divided_output<C>(name: &str, output: &[u8], mut callback: C) -> Result<()>
+fn iterate_divided_output<C>(name: &str, salt: &str, output: &[u8], mut callback: C) -> Result<()>
 where
     C: FnMut(usize, &[u8], i32) -> Result<()>,
 {
     let mut buffer = vec![];
     let mut expected_index = 0;
+    let divider_start = divider_start(salt);
     for line in output.split_at_newline() {
-        let divider =
-            parse_divider_bytes(line).map_err(|err| ExecutionError::failed(expected_index, err))?;
+        // only dividers that carry the salt of this execution divide the output;
+        // the output itself may contain text that looks like a divider
+        let position = line
+            .windows(divider_start.len())
+            .position(|window| window == divider_start);
+        let divider = match position {
+            None => DividerSearch::NotFound,
+            Some(position) => {
+                match parse_divider_bytes(&line[position..])
+                    .map_err(|err| ExecutionError::failed(expected_index, err))?
+                {
+                    DividerSearch::Found {
+                        output_index,
+                        exit_code,
+                        ..
+                    } => DividerSearch::Found {
+                        prefix: (position > 0).then(|| line[..position].to_vec()),
+                        output_index,
+                        exit_code,
+                    },
+                    not_found => not_found,
+                }
+            }
+        };
         match divider {
             DividerSearch::NotFound => buffer.push(line.to_vec()),
             DividerSearch::Found {
@@ -335,6 +366,11 @@ where
         }
     }
     Ok(())
+}
+
+/// The bytes every divider of the execution with the given salt starts with
+fn divider_start(salt: &str) -> Vec<u8> {
+    format!("{}{}::", DIVIDER_PREFIX, salt).into_bytes()
 }
 
 /// Create a new divider that separated outputs of multiple executions
